@@ -919,6 +919,11 @@ impl Scenario for MigScenario {
                         // prior one when no fresh boundary can be drawn
                         if before_sched.iter().zip(state.transactions()).any(|(b, t)| *b != u32::from(t.scheduled_height())) {
                             ctx.probe("overdue_shift_applied");
+                            for ((bs, ba), t) in before_sched.iter().zip(before_anchors.iter()).zip(state.transactions()) {
+                                if *bs != u32::from(t.scheduled_height()) && ba.is_some() && *ba == t.anchor_boundary().map(u32::from) && matches!(t.state(), MigrationTxState::Signed) {
+                                    ctx.probe("overdue_shift_kept_the_prior_anchor");
+                                }
+                            }
                             if before_anchors.iter().zip(state.transactions()).any(|(b, t)| b.is_some() && b != &t.anchor_boundary().map(u32::from)) {
                                 ctx.probe("overdue_shift_redrew_an_anchor");
                             }
